@@ -6,6 +6,7 @@ import vcommon
 from vcommon import Infra
 
 import fam_writepath
+import fam_search
 
 
 class WritePathFamily:
@@ -15,7 +16,14 @@ class WritePathFamily:
     evidence = staticmethod(fam_writepath.evidence)
 
 
-FAMILIES = [WritePathFamily]
+class SearchFamily:
+    NAME = "search"
+    PROPS = fam_search.PROPS
+    compute = staticmethod(fam_search.compute)
+    evidence = staticmethod(fam_search.evidence)
+
+
+FAMILIES = [WritePathFamily, SearchFamily]
 
 
 def family_of(pid):
